@@ -27,6 +27,9 @@ import (
 	"github.com/alicebob/miniredis/v2"
 
 	cloudconst "tunnox-core/internal/cloud/constants"
+	"tunnox-core/internal/cloud/factories"
+	"tunnox-core/internal/cloud/managers"
+	"tunnox-core/internal/cloud/repos"
 	corelog "tunnox-core/internal/core/log"
 	"tunnox-core/internal/core/storage"
 	"tunnox-core/internal/core/storage/hybrid"
@@ -70,6 +73,7 @@ type caseIn struct {
 type caseOut struct {
 	Variant   [5]int      `json:"variant"` // guard, refresh_idx, hb, ptr, cas (probed on the real code)
 	Obs       [][][][3]int `json:"obs"`     // per op, per node, per client: kind(0 absent,1 found,2 error), node, conn
+	RS        [][][][3]int `json:"rs"`      // session mode: the same for the client runtime-state record
 	Errs      []int       `json:"errs"`    // per op: the call returned an error
 	TaintedAt int         `json:"tainted_at"`
 	MaxLateMs int         `json:"max_late_ms"`
@@ -98,9 +102,15 @@ func (t *transport) Write(p []byte) (int, error) {
 func (t *transport) Close() error            { t.closed = true; return nil }
 func (t *transport) GetConnectionID() string { return t.id }
 
+// Scripted stand-in for ServerAuthHandler: like the real one it marks the connection authenticated and records the client's
+// location in the cloud control's runtime state (ConnectClient) before the session layer registers the connection.
+// (The real handler does that for tunnel-typed handshakes as well; this one only for requests the server classifies as
+// control handshakes — see the report: candidate finding, not exercised here.)
 type authHandler struct {
-	ok bool
-	x  int64
+	ok    bool
+	x     int64
+	cloud *managers.BuiltinCloudControl
+	node  string
 }
 
 func (h *authHandler) HandleHandshake(conn session.ControlConnectionInterface, req *packet.HandshakeRequest) (*packet.HandshakeResponse, error) {
@@ -109,6 +119,9 @@ func (h *authHandler) HandleHandshake(conn session.ControlConnectionInterface, r
 	}
 	conn.SetClientID(h.x)
 	conn.SetAuthenticated(true)
+	if h.cloud != nil && req.ConnectionType != "tunnel" {
+		_ = h.cloud.ConnectClient(h.x, h.node, conn.GetConnID(), "198.51.100.7", "tcp", "V3")
+	}
 	return &packet.HandshakeResponse{Success: true, Message: "ok"}, nil
 }
 func (h *authHandler) GetClientConfig(conn session.ControlConnectionInterface) (string, error) {
@@ -126,6 +139,8 @@ type world struct {
 	cs     []*connstate.Store
 	sms    []*session.SessionManager
 	auth   []*authHandler
+	cloud  []*managers.BuiltinCloudControl    // per node: the real cloud control over the node's storage
+	states []*repos.ClientStateRepository     // per node: reader of the shared runtime-state record
 	ttl    time.Duration
 }
 
@@ -157,6 +172,8 @@ func newWorld(backend string, nodes int, ttl time.Duration, withSessions bool) *
 	w.cs = make([]*connstate.Store, nodes+1)
 	w.sms = make([]*session.SessionManager, nodes+1)
 	w.auth = make([]*authHandler, nodes+1)
+	w.cloud = make([]*managers.BuiltinCloudControl, nodes+1)
+	w.states = make([]*repos.ClientStateRepository, nodes+1)
 	var sharedMem *memory.Storage
 	var sharedHybrid *hybrid.Storage
 	switch backend {
@@ -194,8 +211,13 @@ func newWorld(backend string, nodes int, ttl time.Duration, withSessions bool) *
 		if withSessions {
 			sc := &session.SessionConfig{HeartbeatTimeout: 100000 * time.Hour, CleanupInterval: 100000 * time.Hour}
 			sm := session.NewSessionManagerWithConfig(nil, ctx, sc)
-			w.auth[n] = &authHandler{}
+			cfg := managers.DefaultConfig()
+			cfg.NodeID = nodeName(n)
+			w.cloud[n] = factories.NewBuiltinCloudControlWithStorageAndServices(ctx, cfg, w.st[n])
+			w.states[n] = repos.NewClientStateRepository(ctx, w.st[n])
+			w.auth[n] = &authHandler{cloud: w.cloud[n], node: nodeName(n)}
 			sm.SetAuthHandler(w.auth[n])
+			sm.SetCloudControl(session.NewCloudControlAdapter(w.cloud[n]))
 			sm.SetNodeID(nodeName(n))
 			store := session.NewConnectionStateStore(w.st[n], nodeName(n), ttl)
 			sm.SetConnectionStateStore(store)
@@ -345,6 +367,21 @@ func storeIndexes(ct string) bool {
 }
 
 var shapeIsControl [nShapes]bool
+
+// the OTHER cross-node location record: the client runtime state kept by cloud control (read on node m)
+func (w *world) stateLookup(m int, x int) [3]int {
+	if w.states[m] == nil {
+		return [3]int{0, 0, 0}
+	}
+	st, err := w.states[m].GetState(int64(x))
+	if err != nil {
+		return [3]int{2, 0, 0}
+	}
+	if st == nil || !st.IsOnline() {
+		return [3]int{0, 0, 0}
+	}
+	return [3]int{1, nodeNum(st.NodeID), connNum(st.ConnID)}
+}
 
 func (w *world) lookup(m int, x int) ([3]int, string) {
 	node, conn, err := w.cs[m].FindClientNode(w.ctx, int64(x))
@@ -547,6 +584,48 @@ func (g *ghost) check(o []int, now int, clients []int, ans [][][3]int, msgs [][]
 	return "", "", checked
 }
 
+// the runtime-state record: while the client's newest registered control connection (n, c) is registered, every node
+// reads (n, c) from the shared record (its 90 s ttl is far beyond these histories and refreshed by every heartbeat)
+func (g *ghost) checkState(o []int, clients []int, rs [][][3]int) (string, string, int) {
+	checked := 0
+	for xi, x := range clients {
+		cu := g.cur[x]
+		if x <= 0 || cu == nil || !cu.valid {
+			continue
+		}
+		for m, row := range rs {
+			checked++
+			a := row[xi]
+			if a[0] != 1 || a[1] != cu.n || a[2] != cu.c {
+				key := "state-wrong:" + opName[arg(o, 0)]
+				switch arg(o, 0) {
+				case opHeartbeat:
+					if arg(o, 2) != cu.c {
+						key = "state-moved-by-heartbeat-of-old-connection"
+					}
+				case opClose, opStale:
+					if arg(o, 2) != cu.c {
+						key = "state-deleted-by-cleanup-of-old-connection"
+					}
+				case opAuthOK:
+					if arg(o, 3) == x {
+						key = "state-not-set-by-login"
+					}
+				}
+				got := "offline"
+				if a[0] == 1 {
+					got = fmt.Sprintf("(node %d, c%d)", a[1], a[2])
+				} else if a[0] == 2 {
+					got = "an error"
+				}
+				return key, fmt.Sprintf("client %d's newest registered control connection is c%d on node %d but the client runtime state read on node %d says %s after %s",
+					x, cu.c, cu.n, m+1, got, opString(o)), checked
+			}
+		}
+	}
+	return "", "", checked
+}
+
 // ---------------------------------------------------------------------------------------------
 // one history
 // ---------------------------------------------------------------------------------------------
@@ -620,6 +699,17 @@ func runCase(raw json.RawMessage) interface{} {
 			out.TaintedAt = i
 		}
 		out.Obs = append(out.Obs, ans[1:])
+		var rsAns [][][3]int
+		if sess {
+			for m := 1; m <= c.Nodes; m++ {
+				row := [][3]int{}
+				for _, x := range c.Clients {
+					row = append(row, w.stateLookup(m, x))
+				}
+				rsAns = append(rsAns, row)
+			}
+			out.RS = append(out.RS, rsAns)
+		}
 		e := 0
 		if errFlag {
 			e = 1
@@ -629,6 +719,11 @@ func runCase(raw json.RawMessage) interface{} {
 		if out.PropOK && out.TaintedAt < 0 {
 			key, msg, k := g.check(o, now, c.Clients, ans, msgs)
 			out.Checked += k
+			if key == "" && sess {
+				var k2 int
+				key, msg, k2 = g.checkState(o, c.Clients, rsAns)
+				out.Checked += k2
+			}
 			if key != "" {
 				out.PropOK, out.PropKey, out.PropMsg, out.PropStep = false, key, msg, i
 			}
